@@ -67,7 +67,17 @@ func checkC05(ctx *Ctx) *Result {
 		"R13.1":  "documented limits are the constants in use; the lexers' loops are bounded by them (a scheme, host or port of the documented maximal length is still accepted)",
 		"R13.4":  "every accepting path of ParsePattern has passed each documented guard (a defective pattern is a violation that must be reported)",
 		"R13.10": "every rejecting path of ParsePattern is decided by one of the documented defects",
+		"R13.7":  "the host lexer's steps are the documented grammar's (label bytes, separators, the IPv4 assumption, lengths): a host outside it is a violation that must be reported, one inside it is accepted",
+		"R13.8":  "the IDNA profile used for domain hosts is idna.New(BidiRule, ValidateLabels(true), StrictDomainName(true), VerifyDNSLength(true))",
 	}, nil)
+	// "traversed with cfgerrors.All, consists solely of non-nil pointers to the
+	// exported types … one per violation": the traversal itself
+	r.share(checkC19x(ctx, false), map[string]string{
+		"R19.1": "yield typestate: each yield is a branch condition; after `false` the literal exits without another yield/loop head/recursive call",
+		"R19.2": "yield arguments and multiplicity: leaf yielded once outside loops; join children flattened by one range over Unwrap() × one range over All(child), one yield per element (no join is yielded in place of its leaves)",
+	}, nil)
+	// the error the caller sees is the builder's: Reconfigure consults it on every path
+	r.share(checkC08(ctx), map[string]string{"R7.0": "every function touching the Middleware's state is loop-free and fully summarised; state fields identified by role (mutex, configuration pointer, debug flag)", "R8.1": "Reconfigure: every path calls the builder (or is Reconfigure(nil)); the rejecting path returns the builder's error and nothing is stored unless that error is nil"}, nil)
 	return r
 }
 
@@ -531,6 +541,7 @@ func checkC15(ctx *Ctx) *Result {
 	r.rule("R15.1", "monotone flags: inside validator loops, loop-carried booleans and configuration flags are only ever set to the constant true", 4)
 	r.rule("R15.2", "every read, inside a loop body, of state written in that loop is benign (duplicate-skip / masked container / dead local)", 3)
 	r.rule("R15.3", "per-element effect depends on the element class only: normalise-before-insert, safelisted elements have no effect (decision-table equality)", 60)
+	r.rule("R15.5", "before its loop a validator looks at nothing but whether the list is empty: no entry is treated specially for being first (an early exit there would make the verdict depend on position)", 4)
 	r.rule("R15.4", "canonical containers: SortedSet.Add inserts only absent elements and re-sorts", 1)
 	r.rule("R4.7", "publication on error-free exits (CI-7: acah is the join of exactly the published set)", 8)
 	for _, f := range sortedKeys(val.Lists) {
@@ -538,6 +549,7 @@ func checkC15(ctx *Ctx) *Result {
 		monotoneFlags(ctx, r, "R15.1", t)
 		carriedReads(ctx, r, "R15.2", t)
 		exitStores(ctx, r, "R4.7", t)
+		entryRule(ctx, r, "R15.5", t)
 	}
 	reportMismatches(r, "R15.3", val, vf, func(m mismatch) bool { return true }, "per-element behaviour differs from the documented, order-free table")
 	sortedSetAdd(ctx, r, "R15.4")
